@@ -1,6 +1,9 @@
 use crate::runner::CheckDef;
+pub mod c02;
+pub mod c05;
 pub mod c09;
+pub mod hist;
 
 pub fn all() -> Vec<CheckDef> {
-    vec![c09::def()]
+    vec![c02::def(), c05::def(), c09::def()]
 }
